@@ -232,6 +232,256 @@ theorem outcomes_exclusive_total (consumer supplier : Ruv) :
     (∃ l a, rangeDiff consumer supplier = .critical l a) := by
   cases h : rangeDiff consumer supplier <;> simp
 
+/-! ## `supplier_provide_changes`: what the consumer is told
+
+`supplierDecide consumer supplier` is the transcription of the decision part of
+`QueryServerReadTransaction::supplier_provide_changes`: the `range_diff` call with the
+argument order found in the source, the `match` over its status with the arms found in the
+source, and the `ranges.is_empty()` test — all three regenerated into
+`Kanidm.Gen.SupplierMap` on every run.  `consumer` is the `ranges` of the request,
+`supplier` the supplier's own `filter_ruv_range(trim_cid)` view of its RUV. -/
+section Supplier
+open Kanidm.Gen.SupplierMap
+
+/-- The proof obligation that re-reads supplier.rs: with the call order, the status arms and
+the empty test as they are in the source now, the decision is the one the property states —
+consumer ranges first; Ok ↦ supply (or "no changes" when nothing is needed), Refresh ↦
+RefreshRequired, Unwilling / Critical / NoRUVOverlap ↦ UnwillingToSupply.  A swapped arm,
+a copy-pasted reply, swapped arguments or a dropped empty test make this fail. -/
+theorem supplier_map_is_spec (consumer supplier : Ruv) :
+    supplierDecide consumer supplier =
+      match rangeDiff consumer supplier with
+      | .ok d => if d.isEmpty then .reply .noChangesAvailable else .supply d
+      | .refresh _ => .reply .refreshRequired
+      | .unwilling _ => .reply .unwillingToSupply
+      | .critical _ _ => .reply .unwillingToSupply
+      | .noOverlap => .reply .unwillingToSupply := by
+  unfold supplierDecide
+  simp only [consumerArgFirst, if_true]
+  cases rangeDiff consumer supplier <;>
+    simp [kindOf, supplierMap, payload, afterMatch, emptyRangesReply]
+
+theorem shared_of_lag {consumer supplier : Ruv} (h : ∃ k, LagOn consumer supplier k) :
+    ∃ k, Shared consumer supplier k := by
+  obtain ⟨k, c, s, hc, hsup, _⟩ := h
+  exact ⟨k, by simp [hc], by simp [hsup]⟩
+
+theorem shared_of_adv {consumer supplier : Ruv} (h : ∃ k, AdvOn consumer supplier k) :
+    ∃ k, Shared consumer supplier k := by
+  obtain ⟨k, c, s, hc, hsup, _⟩ := h
+  exact ⟨k, by simp [hc], by simp [hsup]⟩
+
+/-- **"If the consumer is behind some window it demands a refresh"** — exactly then:
+`RefreshRequired` ⇔ some shared server has the consumer's newest change older than the
+supplier's oldest, and no shared server has the consumer ahead. -/
+theorem supplier_refresh_iff (consumer supplier : Ruv) (hs : (supplier.map (·.1)).Nodup) :
+    supplierDecide consumer supplier = .reply .refreshRequired ↔
+      (∃ k, LagOn consumer supplier k) ∧ ¬ ∃ k, AdvOn consumer supplier k := by
+  have ho := outcome_iff consumer supplier hs
+  rw [supplier_map_is_spec]
+  constructor
+  · intro h
+    cases hrd : rangeDiff consumer supplier with
+    | refresh l => have := ho.2.1.mp ⟨l, hrd⟩; exact ⟨this.2.1, this.2.2⟩
+    | ok d => rw [hrd] at h; by_cases hd : d.isEmpty <;> simp [hd] at h
+    | unwilling a => rw [hrd] at h; simp at h
+    | critical l a => rw [hrd] at h; simp at h
+    | noOverlap => rw [hrd] at h; simp at h
+  · rintro ⟨hl, ha⟩
+    obtain ⟨l, hl'⟩ := ho.2.1.mpr ⟨shared_of_lag hl, hl, ha⟩
+    rw [hl']
+
+/-- The three refusals of the property, by cause: **ahead** (`Unwilling`), **both behind and
+ahead** (`Critical`), **no server in common** (`NoRUVOverlap`) — each is answered
+`UnwillingToSupply`, and nothing else is. -/
+theorem supplier_refuse_cases (consumer supplier : Ruv) :
+    supplierDecide consumer supplier = .reply .unwillingToSupply ↔
+      (∃ a, rangeDiff consumer supplier = .unwilling a) ∨
+      (∃ l a, rangeDiff consumer supplier = .critical l a) ∨
+      rangeDiff consumer supplier = .noOverlap := by
+  rw [supplier_map_is_spec]
+  cases hrd : rangeDiff consumer supplier with
+  | ok d => by_cases hd : d.isEmpty <;> simp [hd]
+  | refresh l => simp
+  | unwilling a => simp
+  | critical l a => simp
+  | noOverlap => simp
+
+/-- **"if ahead it refuses, if both it refuses as critical, and if the two share no server
+at all it refuses"** — exactly then: `UnwillingToSupply` ⇔ some shared server has the
+consumer's oldest change newer than the supplier's newest (whether or not another one is
+behind), or no server is shared (which includes an empty map on either side). -/
+theorem supplier_refuse_iff (consumer supplier : Ruv) (hs : (supplier.map (·.1)).Nodup) :
+    supplierDecide consumer supplier = .reply .unwillingToSupply ↔
+      (∃ k, AdvOn consumer supplier k) ∨ ¬ ∃ k, Shared consumer supplier k := by
+  have ho := outcome_iff consumer supplier hs
+  rw [supplier_refuse_cases, ho.2.2.1, ho.2.2.2, no_overlap_iff]
+  constructor
+  · rintro (⟨_, _, ha⟩ | ⟨_, _, ha⟩ | h)
+    · exact Or.inl ha
+    · exact Or.inl ha
+    · exact Or.inr h
+  · rintro (ha | h)
+    · by_cases hl : ∃ k, LagOn consumer supplier k
+      · exact Or.inr (Or.inl ⟨shared_of_adv ha, hl, ha⟩)
+      · exact Or.inl ⟨shared_of_adv ha, hl, ha⟩
+    · exact Or.inr (Or.inr h)
+
+/-- **"supplies changes only when every server both sides know about has overlapping change
+windows"** — and exactly when, in addition, something is needed: `V1 { ranges }` ⇔ a server
+is shared, none is behind, none is ahead, and some window is needed. -/
+theorem supplier_supply_iff (consumer supplier : Ruv) (hs : (supplier.map (·.1)).Nodup) :
+    (∃ d, supplierDecide consumer supplier = .supply d) ↔
+      (∃ k, Shared consumer supplier k) ∧ (¬ ∃ k, LagOn consumer supplier k) ∧
+      (¬ ∃ k, AdvOn consumer supplier k) ∧ ∃ k r, Needed consumer supplier k r := by
+  have ho := outcome_iff consumer supplier hs
+  rw [supplier_map_is_spec]
+  constructor
+  · rintro ⟨d', h⟩
+    cases hrd : rangeDiff consumer supplier with
+    | ok d =>
+      rw [hrd] at h
+      have hok := ho.1.mp ⟨d, hrd⟩
+      by_cases hd : d.isEmpty
+      · simp [hd] at h
+      · refine ⟨hok.1, hok.2.1, hok.2.2, ?_⟩
+        cases d with
+        | nil => simp at hd
+        | cons e tl =>
+          exact ⟨e.1, e.2, (ok_ranges_exact consumer supplier hs _ hrd e.1 e.2).mp (by simp)⟩
+    | refresh l => rw [hrd] at h; simp at h
+    | unwilling a => rw [hrd] at h; simp at h
+    | critical l a => rw [hrd] at h; simp at h
+    | noOverlap => rw [hrd] at h; simp at h
+  · rintro ⟨hsh, hl, ha, k, r, hn⟩
+    obtain ⟨d, hd⟩ := ho.1.mpr ⟨hsh, hl, ha⟩
+    have hmem := (ok_ranges_exact consumer supplier hs d hd k r).mpr hn
+    refine ⟨d, ?_⟩
+    rw [hd]
+    cases d with
+    | nil => cases hmem
+    | cons e tl => simp
+
+/-- **"sending for each such server exactly the window from the consumer's newest change to
+the supplier's newest, plus all changes from servers the consumer has never seen"**: the
+ranges of `V1` are exactly the needed ones. -/
+theorem supplier_supply_exact (consumer supplier : Ruv) (hs : (supplier.map (·.1)).Nodup)
+    (d : Ruv) (h : supplierDecide consumer supplier = .supply d) (k : Nat) (r : Range) :
+    (k, r) ∈ d ↔ Needed consumer supplier k r := by
+  rw [supplier_map_is_spec] at h
+  cases hrd : rangeDiff consumer supplier with
+  | ok d' =>
+    rw [hrd] at h
+    by_cases hd : d'.isEmpty
+    · simp [hd] at h
+    · simp only [hd] at h
+      have : d' = d := by simpa using h
+      subst this
+      exact ok_ranges_exact consumer supplier hs _ hrd k r
+  | refresh l => rw [hrd] at h; simp at h
+  | unwilling a => rw [hrd] at h; simp at h
+  | critical l a => rw [hrd] at h; simp at h
+  | noOverlap => rw [hrd] at h; simp at h
+
+/-- Overlap wording of the supply condition: whenever changes are supplied, a server is
+shared and every shared server's windows overlap. -/
+theorem supplier_supplies_only_if_all_overlap (consumer supplier : Ruv)
+    (hs : (supplier.map (·.1)).Nodup) (d : Ruv) (h : supplierDecide consumer supplier = .supply d) :
+    (∃ k, Shared consumer supplier k) ∧
+      ∀ k c s, lookup consumer k = some c → lookup supplier k = some s → Overlap c s := by
+  have h' := (supplier_supply_iff consumer supplier hs).mp ⟨d, h⟩
+  exact (ok_iff_all_overlap consumer supplier hs).mp
+    ((outcome_iff consumer supplier hs).1.mpr ⟨h'.1, h'.2.1, h'.2.2.1⟩)
+
+/-- `NoChangesAvailable` ⇔ replication may proceed (shared server, none behind, none ahead)
+and nothing is needed: the consumer already has the supplier's newest change of every server
+the supplier knows. -/
+theorem supplier_nochanges_iff (consumer supplier : Ruv) (hs : (supplier.map (·.1)).Nodup) :
+    supplierDecide consumer supplier = .reply .noChangesAvailable ↔
+      (∃ k, Shared consumer supplier k) ∧ (¬ ∃ k, LagOn consumer supplier k) ∧
+      (¬ ∃ k, AdvOn consumer supplier k) ∧ ¬ ∃ k r, Needed consumer supplier k r := by
+  have ho := outcome_iff consumer supplier hs
+  rw [supplier_map_is_spec]
+  constructor
+  · intro h
+    cases hrd : rangeDiff consumer supplier with
+    | ok d =>
+      rw [hrd] at h
+      have hok := ho.1.mp ⟨d, hrd⟩
+      by_cases hd : d.isEmpty
+      · refine ⟨hok.1, hok.2.1, hok.2.2, ?_⟩
+        rintro ⟨k, r, hn⟩
+        have hmem := (ok_ranges_exact consumer supplier hs d hrd k r).mpr hn
+        cases d with
+        | nil => cases hmem
+        | cons e tl => simp at hd
+      · simp [hd] at h
+    | refresh l => rw [hrd] at h; simp at h
+    | unwilling a => rw [hrd] at h; simp at h
+    | critical l a => rw [hrd] at h; simp at h
+    | noOverlap => rw [hrd] at h; simp at h
+  · rintro ⟨hsh, hl, ha, hn⟩
+    obtain ⟨d, hd⟩ := ho.1.mpr ⟨hsh, hl, ha⟩
+    rw [hd]
+    cases d with
+    | nil => simp
+    | cons e tl =>
+      exact absurd ⟨e.1, e.2, (ok_ranges_exact consumer supplier hs _ hd e.1 e.2).mp (by simp)⟩ hn
+
+/-- The domain test precedes everything: a request for another domain is answered
+`DomainMismatch` whatever the ranges, a request for this domain is decided by the ranges
+alone, and the ranges never produce `DomainMismatch`. -/
+theorem supplier_domain (consumer supplier : Ruv) :
+    supplierProvide false consumer supplier = .reply .domainMismatch ∧
+    supplierProvide true consumer supplier = supplierDecide consumer supplier ∧
+    supplierDecide consumer supplier ≠ .reply .domainMismatch := by
+  refine ⟨by simp [supplierProvide, domainMismatchReply], by simp [supplierProvide, domainMismatchReply], ?_⟩
+  rw [supplier_map_is_spec]
+  cases rangeDiff consumer supplier with
+  | ok d => by_cases hd : d.isEmpty <;> simp [hd]
+  | refresh l => simp
+  | unwilling a => simp
+  | critical l a => simp
+  | noOverlap => simp
+
+/-! Non-vacuity for the supplier theorems: one concrete pair of maps per reply, with the
+right-hand sides of the iffs inhabited (so no hypothesis is unsatisfiable). -/
+
+-- supply: server 1 shared and overlapping (consumer behind its newest), server 3 unseen
+example : supplierDecide [(1, ⟨2, 5⟩), (2, ⟨1, 1⟩)] [(1, ⟨3, 9⟩), (3, ⟨4, 4⟩)] =
+    .supply [(1, ⟨5, 9⟩), (3, ⟨0, 4⟩)] := by decide
+example : Needed [(1, ⟨2, 5⟩), (2, ⟨1, 1⟩)] [(1, ⟨3, 9⟩), (3, ⟨4, 4⟩)] 3 ⟨0, 4⟩ :=
+  ⟨⟨4, 4⟩, by decide, Or.inr ⟨by decide, rfl⟩⟩
+-- no changes: everything the supplier has, the consumer has
+example : supplierDecide [(1, ⟨2, 9⟩), (2, ⟨1, 1⟩)] [(1, ⟨3, 9⟩)] = .reply .noChangesAvailable := by decide
+-- refresh: behind on 1 (3 < 4), fine on 2
+example : supplierDecide [(1, ⟨2, 3⟩), (2, ⟨5, 6⟩)] [(1, ⟨4, 9⟩), (2, ⟨5, 8⟩)] =
+    .reply .refreshRequired := by decide
+example : LagOn [(1, ⟨2, 3⟩), (2, ⟨5, 6⟩)] [(1, ⟨4, 9⟩), (2, ⟨5, 8⟩)] 1 :=
+  ⟨⟨2, 3⟩, ⟨4, 9⟩, by decide, by decide, by decide⟩
+-- refuse, ahead only
+example : supplierDecide [(1, ⟨7, 9⟩)] [(1, ⟨1, 4⟩)] = .reply .unwillingToSupply := by decide
+example : AdvOn [(1, ⟨7, 9⟩)] [(1, ⟨1, 4⟩)] 1 :=
+  ⟨⟨7, 9⟩, ⟨1, 4⟩, by decide, by decide, by decide, by decide⟩
+-- refuse, critical: ahead on 1 and behind on 2
+example : supplierDecide [(1, ⟨7, 9⟩), (2, ⟨1, 1⟩)] [(1, ⟨1, 4⟩), (2, ⟨5, 6⟩)] =
+    .reply .unwillingToSupply := by decide
+-- refuse, nothing shared (disjoint server sets; both empty; consumer empty)
+example : supplierDecide [(1, ⟨1, 2⟩)] [(2, ⟨1, 2⟩)] = .reply .unwillingToSupply := by decide
+example : supplierDecide [] [] = .reply .unwillingToSupply := by decide
+example : supplierDecide [] [(2, ⟨1, 2⟩)] = .reply .unwillingToSupply := by decide
+example : ¬ ∃ k, Shared [(1, ⟨1, 2⟩)] [(2, ⟨1, 2⟩)] k := by
+  rintro ⟨k, h1, h2⟩
+  by_cases hk : k = 1
+  · subst hk; simp [lookup] at h2
+  · simp [lookup, Ne.symm hk] at h1
+-- the argument order matters: the same two maps the other way round are refused, not refreshed
+example : supplierDecide [(1, ⟨4, 9⟩)] [(1, ⟨2, 3⟩)] = .reply .unwillingToSupply ∧
+    supplierDecide [(1, ⟨2, 3⟩)] [(1, ⟨4, 9⟩)] = .reply .refreshRequired := by decide
+example : supplierProvide false [(1, ⟨2, 3⟩)] [(1, ⟨4, 9⟩)] = .reply .domainMismatch := by decide
+
+end Supplier
+
 /-! ### Non-vacuity: concrete maps meeting the hypotheses, one per outcome -/
 
 example : rangeDiff [(1, ⟨2, 5⟩), (2, ⟨1, 1⟩)] [(1, ⟨3, 9⟩), (3, ⟨4, 4⟩)] =
